@@ -20,6 +20,7 @@ class Ctx:
     assumptions = []
     solver_time = 0.0
     queries = 0
+    syntactic = 0
     denominators = []
 
     @classmethod
@@ -54,6 +55,95 @@ def _lift(x):
     raise TypeError(type(x))
 
 
+def poly(e):
+    """z3 arithmetic term -> {monomial (sorted tuple of variable names): Fraction coefficient}, or None"""
+    F = fractions.Fraction
+    if z3.is_rational_value(e) or z3.is_int_value(e):
+        v = F(e.numerator_as_long(), e.denominator_as_long()) if z3.is_rational_value(e) else F(e.as_long())
+        return {(): v} if v != 0 else {}
+    if z3.is_const(e) and e.decl().kind() == z3.Z3_OP_UNINTERPRETED:
+        return {(str(e),): F(1)}
+    k = e.decl().kind()
+    kids = e.children()
+    if k == z3.Z3_OP_TO_REAL:
+        return poly(kids[0])
+    if k == z3.Z3_OP_ADD:
+        out = {}
+        for c in kids:
+            pc = poly(c)
+            if pc is None:
+                return None
+            for m, v in pc.items():
+                out[m] = out.get(m, 0) + v
+        return {m: v for m, v in out.items() if v != 0}
+    if k == z3.Z3_OP_SUB:
+        out = dict(poly(kids[0]) or {}) if poly(kids[0]) is not None else None
+        if out is None:
+            return None
+        for c in kids[1:]:
+            pc = poly(c)
+            if pc is None:
+                return None
+            for m, v in pc.items():
+                out[m] = out.get(m, 0) - v
+        return {m: v for m, v in out.items() if v != 0}
+    if k == z3.Z3_OP_UMINUS:
+        pc = poly(kids[0])
+        return None if pc is None else {m: -v for m, v in pc.items()}
+    if k == z3.Z3_OP_MUL:
+        out = {(): F(1)}
+        for c in kids:
+            pc = poly(c)
+            if pc is None:
+                return None
+            nxt = {}
+            for m1, v1 in out.items():
+                for m2, v2 in pc.items():
+                    m = tuple(sorted(m1 + m2))
+                    nxt[m] = nxt.get(m, 0) + v1 * v2
+            out = {m: v for m, v in nxt.items() if v != 0}
+            if len(out) > 200000:
+                return None
+        return out
+    if k == z3.Z3_OP_DIV:
+        den = poly(kids[1])
+        num = poly(kids[0])
+        if num is None or den is None or list(den.keys()) != [()]:
+            return None
+        return {m: v / den[()] for m, v in num.items()}
+    return None
+
+
+def _strictly_positive_vars():
+    pos = set()
+    for a in Ctx.assumptions:
+        if a.decl().kind() == z3.Z3_OP_GT and z3.is_const(a.arg(0)) and (z3.is_rational_value(a.arg(1)) or z3.is_int_value(a.arg(1))):
+            if a.arg(1).numerator_as_long() >= 0:
+                pos.add(str(a.arg(0)))
+    return pos
+
+
+def syntactic_sign(e):
+    """sufficient syntactic decision of p > 0 / p >= 0 / p <= 0 / p < 0 for a polynomial p whose variables are all
+    assumed strictly positive and whose coefficients all have the same sign.  Returns True / False / None."""
+    k = e.decl().kind()
+    if k not in (z3.Z3_OP_GT, z3.Z3_OP_GE, z3.Z3_OP_LT, z3.Z3_OP_LE):
+        return None
+    p = poly(e.arg(0) - e.arg(1))
+    if p is None:
+        return None
+    pos = _strictly_positive_vars()
+    if any(v not in pos for m in p for v in m):
+        return None
+    if not p:
+        return k in (z3.Z3_OP_GE, z3.Z3_OP_LE)
+    if all(c > 0 for c in p.values()):
+        return k in (z3.Z3_OP_GT, z3.Z3_OP_GE)
+    if all(c < 0 for c in p.values()):
+        return k in (z3.Z3_OP_LT, z3.Z3_OP_LE)
+    return None
+
+
 class SymBool:
     def __init__(self, e):
         self.e = e
@@ -63,6 +153,12 @@ class SymBool:
         s.set("timeout", 20000)
         s.add(*Ctx.assumptions)
         t = time.time()
+        # lemma: a polynomial whose monomials all carry the same sign over strictly positive variables has that sign
+        # (sum u) w (sum u) - sum u w u expands to positive monomials only; z3 needs 15 s+ for what is syntactic
+        sg = syntactic_sign(self.e)
+        if sg is not None:
+            Ctx.syntactic += 1
+            return sg
         s.push()
         s.add(z3.Not(self.e))
         r1 = s.check()
@@ -96,8 +192,6 @@ class SymBool:
 
 
 class SymReal:
-    __array_priority__ = 1000
-
     def __init__(self, e):
         self.e = e
 
